@@ -20,7 +20,7 @@ theorem keepDropsNothing_valid (pre : Layer) (L : LDef) (m : Option MetaTbl) (hc
 theorem doc_ok (lp : Bytes) (L : LDef) (hL : LOk L) (probes : List (Scope × Env)) (strict : Bool)
     (pre : Layer) (d : Dir) (hpd : pre.dir = some d) (sb : List (Nat × Bytes)) (hsb : pre.sboms = sb)
     (le : LayerEnv) (hok : le.Ok) (hs : ShapedBy le d) (hx : ExecdOk d)
-    (ty : Option LTypes) (m : Option MetaTbl)
+    (ty : Option LTypes) (m : Option MetaTbl) (hty : storedTypes pre = ty)
     (hcl : Spec.classify pre L.mt = if canDecode L.mt m then .valid m else .invalid m)
     (hstrict : strict = true → keepDropsNothing pre L = true) (fuel : Nat) :
     handleOk lp pre (tHandle lp L (fuel + 2) ⟨some d, some (.doc ty m), sb⟩ []).1 L
@@ -30,7 +30,7 @@ theorem doc_ok (lp : Bytes) (L : LDef) (hL : LOk L) (probes : List (Scope × Env
   have hshaped : Shaped d := ⟨⟨le, hok, hs⟩, hx⟩
   by_cases hdec : canDecode L.mt m = true
   · have hcl' : Spec.classify pre L.mt = .valid m := by rw [hcl]; simp [hdec]
-    exact valid_ok lp L hL probes strict pre d hpd le hs d le hok hs hx (EnvSame.refl le) (fun _ _ _ _ => rfl) ty m sb hsb
+    exact valid_ok lp L hL probes strict pre d hpd le hs d le hok hs hx (EnvSame.refl le) (fun _ _ _ _ => rfl) ty m sb hsb hty
       (by rw [decodes_eq]; exact hdec) [] (by rw [hcl']; rfl) (keepDropsNothing_valid pre L m hcl' strict hstrict) (fuel + 1)
   · have hdec' : decodes L.mt m = false := by rw [decodes_eq]; simpa using hdec
     have hcl' : Spec.classify pre L.mt = .invalid m := by rw [hcl]; simp [hdec]
@@ -63,7 +63,7 @@ theorem doc_ok (lp : Bytes) (L : LDef) (hL : LOk L) (probes : List (Scope × Env
       simp only []
       have hx2 : ExecdOk d2 := execdOk_of_frame (hf2 _ nExecd_ne.1 nExecd_ne.2.1 nExecd_ne.2.2) hx
       have hcd : canDecode L.mt (some m') = true := by rw [← decodes_eq]; exact hd'
-      exact valid_ok lp L hL probes strict pre d hpd le hs d2 le1 hok1 hs2 hx2 ⟨ea, eb, el, hprocs⟩ hf2 ty (some m') sb hsb
+      exact valid_ok lp L hL probes strict pre d hpd le hs d2 le1 hok1 hs2 hx2 ⟨ea, eb, el, hprocs⟩ hf2 ty (some m') sb hsb hty
         hd' [.migrate m] (by rw [hcl']; simp [expectedT, hmg, hcd]) (fun _ _ => hv') fuel
 
 /-- the read normalisation: a directory without metadata file is handled as one with an empty document -/
@@ -95,7 +95,7 @@ theorem handle_ok (lp : Bytes) (l : Layer) (hwf : WFL2 l) (L : LDef) (hL : LOk L
     cases toml with
     | none =>
       rw [tHandle_norm]
-      exact doc_ok lp L hL probes strict _ d rfl sboms rfl le hok hs hx none none (by simp [Spec.classify]) hstrict fuel
+      exact doc_ok lp L hL probes strict _ d rfl sboms rfl le hok hs hx none none rfl (by simp [Spec.classify]) hstrict fuel
     | some tm =>
       cases tm with
       | broken =>
@@ -105,7 +105,7 @@ theorem handle_ok (lp : Bytes) (l : Layer) (hwf : WFL2 l) (L : LDef) (hL : LOk L
         · simp only [tHandle, tReadLayer, readLayer]
           exact wfl2_mk d _ _ ⟨⟨le, hok, hs⟩, hx⟩
       | doc ty m =>
-        exact doc_ok lp L hL probes strict _ d rfl sboms rfl le hok hs hx ty m (by simp [Spec.classify]) hstrict fuel
+        exact doc_ok lp L hL probes strict _ d rfl sboms rfl le hok hs hx ty m rfl (by simp [Spec.classify]) hstrict fuel
 
 /-! ### the returned layer data is what a read of the post-state gives (structural: no invariant needed) -/
 
